@@ -1,6 +1,7 @@
 \* run with -simulate: every behaviour builds one grid cell and prints it when complete
 SPECIFICATION SpecK
 CONSTANTS MaxQ = 255
+  OtherBlowups <- SomeBlowups  OtherGrindings <- FewGrindings
   Blowups <- AllBlowups  Exts <- AllExts  Grindings <- SomeGrindings  FieldBits <- AllFieldBits  CRs <- AllCRs
 INVARIANT EmitK
 CHECK_DEADLOCK FALSE
